@@ -1,5 +1,8 @@
 """C19 HDR histogram: counts are conserved, quantiles / Min / Max are within the promised precision,
-Export/Import and Merge-into-empty are identities, in-range values are always recordable, no invariant panic."""
+Export/Import and Merge-into-empty are identities, in-range values are always recordable, no invariant panic.
+
+Large magnitudes (values at and beyond 2^31, 2^32, up to 2^62) are reached by replaying the TLC-generated
+behaviours a second time under the transformations of Hdr.tla (ScaleLaw / LiftLaw / TransExpect): see _plans."""
 import copy, json, random, time
 
 from vlib import tlc, harness, replay
@@ -13,6 +16,42 @@ def _calls(b):
            ["%s(%s)" % (s["op"], ",".join(str(s[k]) for k in ("v", "n") if k in s)) for s in b[1:]]
 
 
+KINDS = ("max@2^31", "max@2^32", "min@2^31", "max@2^62", "random")
+SPLITS = ("scale", "lift", "mixed")
+
+
+def _plans(b, rng):
+    """The (kind, split, lift k, scale c) variants of behaviour b.  k + c = t with max * 2^t just past 2^31, just past
+    2^32, min * 2^t just past 2^31, max * 2^t in [2^61, 2^62), and a random t; the split
+    of t is scale only (unit magnitude + t), lift as far as allowed (bucket indices + k) or half and half.  The lift is
+    capped so that the counts array grows by at most 2^19 entries and is 0 for behaviours with RecordCorrectedValue
+    (v - e is not invariant under a lift)."""
+    new = b[0]
+    mx, mn = new["max"], new["min"]
+    # mx << budget < 2^62: New's bucket-count loop doubles smallestUntrackableValue until it exceeds max, which needs a
+    # power of two above max in int64 (for max >= 2^62 the loop of hdr.go:70 never ends - outside this check, see assumptions)
+    budget = 62 - mx.bit_length()
+    half = new["liftfrom"] // new["pu"]
+    kmax = 0 if any(s["op"] == "corr" for s in b) else (1 << 19) // half
+    # New computes subBucketCount << unitMagnitude = 2 * liftfrom << c in int64 (hdr.go:68); when the whole range lies in
+    # bucket 0 this is far above max, and beyond 2^62 it overflows (the loop of hdr.go:70 then never ends)
+    cmax = 62 - new["liftfrom"].bit_length()
+    totals = {"max@2^31": 32 - mx.bit_length(), "max@2^32": 33 - mx.bit_length(), "min@2^31": 32 - mn.bit_length(),
+              "max@2^62": budget, "random": rng.randint(1, budget)}
+    out = []
+    for kind in KINDS:
+        t = totals[kind]
+        if not 1 <= t <= budget:
+            continue
+        for split in SPLITS:
+            k = dict(scale=0, lift=min(t, kmax), mixed=min(t // 2, kmax))[split]
+            c = min(t - k, cmax)
+            k = min(t - c, kmax)                 # what the scale cannot take goes to the lift, if that is allowed
+            if k + c >= 1:
+                out.append((kind, split, k, c))
+    return out
+
+
 def _nontrivial(b):
     # at least two recorded occurrences fall into different buckets, or a non-record call is involved
     last = b[-1]
@@ -22,7 +61,15 @@ def _nontrivial(b):
 def run(rep, tier, seed, replay_file=None):
     quick = tier == "quick"
     rep.assumptions += [
-        "TLC is sound; TLC integers are 32-bit, so shapes are limited to max <= 2^28 (sigfigs 1..5)",
+        "TLC is sound; TLC integers are 32-bit, so the shapes of the model are limited to max <= 2^28 (sigfigs 1..5)",
+        "large magnitudes (values from 2^31 up to 2^62) are not enumerated by TLC: the results for them rest on (1) the "
+        "ScaleLaw / LiftLaw / ExpectLaw of Hdr.tla - the bucket geometry and the expectations are invariant under "
+        "(min, max, v) -> (min 2^c, max 2^(k+c), v 2^c or v 2^(k+c)) - which TLC checks for every shape, candidate value "
+        "and reachable state of the cfg files for k + c in 1..3 only (model values below 2^30), assumed to extend to "
+        "larger k + c because the laws are statements about bit shifts that do not depend on the exponent, and (2) the "
+        "replay of the same TLC-generated behaviours on the real code at k + c up to 61, judged with TransExpect of the "
+        "printed expectations; large values are therefore always of the form (boundary-directed model value) * 2^t, "
+        "with unit magnitude raised by c and bucket indices raised by k",
         "decided for the integer part of the statement: bucket geometry, count conservation, quantile/Min/Max brackets; "
         "Mean/StdDev are only executed (they must not panic), their float values are not judged",
         "quantiles are queried at q = 100*r/total for every rank r in 1..total: int64(q/100*total + 0.5) is r for every total "
@@ -30,29 +77,35 @@ def run(rep, tier, seed, replay_file=None):
         "exhaustive claims hold for the shapes and boundary-directed value sets of the cfg files (min in {1,2,3,1000}, max in "
         "{100,1023,1024,100000}, sigfigs in {1,2}); sigfigs 3..5 are covered by a small exhaustive set (thorough) and by simulation",
         "RecordValues is called with n >= 1 only; values outside [min,max] are never recorded",
+        "shapes are kept where New terminates: max * 2^(k+c) < 2^62 and subBucketCount << unitMagnitude <= 2^62; beyond that the "
+        "bucket-count loop of New (hdr.go:68-73) overflows int64 and never ends (fixes/hdrhist-new-extreme-shapes-loop.diff, "
+        "fixes/demos/hdrhist_new_loops) - a non-terminating constructor cannot be judged without a clock and is not part of "
+        "the property's text, so it is reported, not checked",
     ]
     binary = harness.build("vh-hdr")
     if replay_file:
         obj = json.load(open(replay_file))["replay"]
-        common.capped_replay(rep, binary, ["replay"], [obj["behaviour"]["beh"]], shards=1, label="hdr")
+        item = {k: v for k, v in obj["behaviour"].items() if k != "n"}     # beh, and scale / lift when present
+        common.capped_replay(rep, binary, ["replay"], [item], shards=1, label="hdr", wrap=False)
         return
     phases = rep.cov.setdefault("phase_s", {})
 
-    # the spec as the code is (bucket count computed with `<`) must violate IndexInRange for max on the boundary:
-    # non-vacuity of the model-level invariant
-    r = tlc.run_tlc(COMP, "Hdr", "MC_asis.cfg", workers=1, timeout=300)
-    rep.add_tlc("Hdr/MC_asis.cfg", r, "as-is bucket count, shape (1,1024,1): expected to violate InvRange")
-    rep.self_test("IndexInRange not vacuous (as-is model loses max=1024 for shape (1,1024,1))", r.violated == "InvRange", str(r.brief()))
-
     sim = dict(comp=COMP, module="Hdr", workers=1, timeout=1200)
+    # expected model violations (non-vacuity) and the samples for the transformation self-test run next to the generators
+    aux = [
+        ("MC_asis", dict(comp=COMP, module="Hdr", cfg="MC_asis.cfg", workers=1, timeout=300)),
+        ("MC_lawvac", dict(comp=COMP, module="Hdr", cfg="MC_lawvac.cfg", workers=1, timeout=300)),
+        ("law", dict(comp=COMP, module="Hdr", cfg="Hdr_law.cfg", workers=1, timeout=600)),
+    ]
     if quick:
         jobs = [
             ("canon2_all", dict(comp=COMP, module="Hdr", cfg="Hdr_canon2_all.cfg", workers=2, timeout=900)),
             ("canon4_core", dict(comp=COMP, module="Hdr", cfg="Hdr_canon4_core.cfg", workers=2, timeout=900)),
             ("sim_full", dict(sim, cfg="Hdr_sim_full.cfg", simulate=dict(num=40), depth=9, seed=seed)),
             ("sim_hisf", dict(sim, cfg="Hdr_sim_hisf.cfg", simulate=dict(num=15), depth=6, seed=seed)),
+            ("merge3", dict(comp=COMP, module="Hdr", cfg="Hdr_merge3.cfg", workers=1, timeout=900)),
         ]
-        groups = [jobs]
+        groups = [jobs + aux]
     else:
         g1 = [
             ("canon3_all", dict(comp=COMP, module="Hdr", cfg="Hdr_canon3_all.cfg", workers=3, timeout=1500, heap="6g")),
@@ -64,9 +117,10 @@ def run(rep, tier, seed, replay_file=None):
             ("hisf_core2", dict(comp=COMP, module="Hdr", cfg="Hdr_hisf_core2.cfg", workers=1, timeout=900)),
             ("sim_full", dict(sim, cfg="Hdr_sim_full.cfg", simulate=dict(num=300), depth=9, seed=seed)),
             ("sim_hisf", dict(sim, cfg="Hdr_sim_hisf.cfg", simulate=dict(num=80), depth=6, seed=seed)),
+            ("merge3", dict(comp=COMP, module="Hdr", cfg="Hdr_merge3.cfg", workers=1, timeout=900)),
         ]
         jobs = g1 + g2
-        groups = [g1, g2]
+        groups = [g1 + aux, g2]
     notes = dict(
         canon2_all="every multiset of 2 values over all boundary-directed values (ends, every power of two +-1), 30 shapes",
         canon3_all="every multiset of 3 values over all boundary-directed values, 30 shapes",
@@ -76,16 +130,33 @@ def run(rep, tier, seed, replay_file=None):
         boundary_full3="one shortest behaviour per edge, 3 calls, shapes whose max is on the bucket-count boundary",
         hisf_core2="every multiset of 2 core values, 9 shapes with sigfigs 3..5",
         sim_full="random behaviours of 8 calls, all call kinds, plain and windowed",
-        sim_hisf="random behaviours of 5 calls, sigfigs 3..5")
+        sim_hisf="random behaviours of 5 calls, sigfigs 3..5",
+        merge3="one shortest behaviour per edge, 3 calls out of Record / Record on a second histogram / Merge / Merge into empty / "
+               "Export-Import / Rotate, plain and windowed, 4 shapes whose min is not a power of two, values at min and the range ends")
     t0 = time.time()
     res = {}
     for g in groups:
         res.update(common.run_tlc_parallel(g))
     phases["tlc"] = round(time.time() - t0, 1)
+    # the spec as the code is (bucket count computed with `<`) must violate IndexInRange for max on the boundary:
+    # non-vacuity of the model-level invariant
+    r = res["MC_asis"]
+    rep.add_tlc("Hdr/MC_asis.cfg", r, "as-is bucket count, shape (1,1024,1): expected to violate InvRange")
+    rep.self_test("IndexInRange not vacuous (as-is model loses max=1024 for shape (1,1024,1))", r.violated == "InvRange", str(r.brief()))
+    r = res["MC_lawvac"]
+    rep.add_tlc("Hdr/MC_lawvac.cfg", r, "Laws hold and the lifted part of LiftLaw is not vacuous: expected to violate LawVacuous")
+    rep.self_test("LiftLaw quantifies over lifted values (LawVacuous violated, Laws not)", r.violated == "LawVacuous", str(r.brief()))
+    r = res["law"]
+    rep.add_tlc("Hdr/Hdr_law.cfg", r, "TransExpect evaluated by TLC for every multiset of <= 2 core values, 7 shapes, every law pair")
+    if not r.ok:
+        rep.infra_error("Hdr_law.cfg failed (%s): %s" % (r.violated, r.out[-1500:]))
+        return
+    laws = r.tagged.get("LAW", [])
     behs = []
     for name, _ in jobs:
         r = res[name]
-        rep.add_tlc("Hdr/" + name, r, notes[name] + "; model invariants Conservation, GeometryOK, QuantileOK, IndexInRange, IteratorInBounds")
+        rep.add_tlc("Hdr/" + name, r, notes[name] + "; model invariants Conservation, GeometryOK, QuantileOK, IndexInRange, IteratorInBounds, "
+                    "ScaleLaw, LiftLaw" + ("" if name in ("canon4_core", "canon6_core", "full2", "sim_full") else ", ExpectLaw"))
         if not r.ok:
             rep.infra_error("behaviour generation %s failed (%s): %s" % (name, r.violated, r.out[-1500:]))
             return
@@ -96,7 +167,48 @@ def run(rep, tier, seed, replay_file=None):
     common.capped_replay(rep, binary, ["replay"], behs, shards=8, label="hdr", nontrivial=_nontrivial, cap=2,
                          size=lambda b: (len(b), b[0]["max"]))
     phases["replay"] = round(time.time() - t0, 1)
+
+    # the same behaviours at large magnitudes.  quick: one variant per behaviour, drawn with the run's seed (every kind
+    # and split is hit by thousands of behaviours of every shape); thorough: every behaviour at every kind, the split drawn
     rng = random.Random(seed)
+    t0 = time.time()
+    scaled, tally, top = [], {}, 0
+    for b in behs:
+        plans = _plans(b, rng)
+        if quick:
+            plans = [rng.choice(plans)]
+        else:
+            plans = [rng.choice([p for p in plans if p[0] == kind]) for kind in KINDS if any(p[0] == kind for p in plans)]
+        seen = set()
+        for kind, split, k, c in plans:
+            if (k, c) in seen:
+                continue
+            seen.add((k, c))
+            scaled.append(dict(beh=b, scale=c, lift=k))
+            tally[kind + "/" + split] = tally.get(kind + "/" + split, 0) + 1
+            top = max(top, b[0]["max"] << (k + c))
+    rep.cov["large_magnitude_replays"] = dict(count=len(scaled), by_kind_and_split=tally, largest_max=top,
+                                              rule="behaviour executed on New(min<<c, max<<(k+c), sf) with values v<<c below liftfrom, "
+                                                   "v<<(k+c) from liftfrom on; expectations = TransExpect of the printed ones")
+    common.capped_replay(rep, binary, ["replay"], scaled, shards=8, label="hdr", nontrivial=lambda o: _nontrivial(o["beh"]), cap=2,
+                         size=lambda b: (len(b), b[0]["max"]), wrap=False)
+    phases["replay_large"] = round(time.time() - t0, 1)
+
+    # self-test of the transformation: what the replayer computes from a printed expectation must be what TLC
+    # evaluates TransExpect to (which ExpectLaw ties to the expectation of the transformed shape)
+    items = [dict(n=i, beh=l["beh"], scale=l["c"], lift=l["k"]) for i, l in enumerate(laws)]
+    outs, _ = harness.run_sharded(binary, ["xform"], items, shards=4, timeout=300)
+    got = {o["n"]: o for o in outs if "n" in o}
+    bad = []
+    for i, l in enumerate(laws):
+        want = dict(l["t"])
+        have = {f: got.get(i, {}).get(f) for f in want}
+        for f in ("sorted", "hi", "prec"):
+            want[f], have[f] = list(want[f] or []), list(have[f] or [])
+        if want != have:
+            bad.append((i, want, have))
+    rep.self_test("replayer's transformation of the expectations equals TransExpect evaluated by TLC (%d samples, k+c in 1..3)" % len(laws),
+                  len(laws) > 500 and not bad, str(bad[:2]))
     rep.sample(dict(kind="replayed behaviour", calls=_calls(rng.choice(behs)), final=behs[0][-1]))
 
     # self-test of the binding: the same behaviour must pass as printed and fail with a wrong expectation
@@ -116,10 +228,24 @@ def run(rep, tier, seed, replay_file=None):
         verdicts.append((field, bool(r0) and not r0[0].get("ok"), r0[0].get("key") if r0 else None))
     rep.self_test("replayer accepts the behaviour as printed and rejects a wrong order statistic / total / upper bound",
                   ok1 and all(v[1] for v in verdicts), str(verdicts))
+    # the same at a large magnitude (max 1023 * 2^40, split 15 + 25)
+    rc, outs, err = harness.run(binary, ["replay"], [dict(n=0, beh=copy.deepcopy(good), scale=25, lift=15)], timeout=60)
+    ok2 = any(o.get("n") == 0 and o.get("ok") for o in outs if "begin" not in o)
+    verdicts = []
+    for field, delta in (("sorted", 1), ("hi", -1)):
+        bad = copy.deepcopy(good)
+        bad[-1][field][-1] += delta
+        rc, outs, err = harness.run(binary, ["replay"], [dict(n=0, beh=bad, scale=25, lift=15)], timeout=60)
+        r0 = [o for o in outs if o.get("n") == 0 and "begin" not in o]
+        verdicts.append((field, bool(r0) and not r0[0].get("ok"), r0[0].get("key") if r0 else None))
+    rep.self_test("replayer accepts the behaviour at scale 2^25, lift 2^15 and rejects an order statistic / upper bound that is wrong by one "
+                  "model unit", ok2 and all(v[1] for v in verdicts), str(verdicts))
     rep.cov["rule"] = ("behaviours = call sequences of Hdr.tla per shape (min,max,sigfigs): all multisets of boundary-directed values up to "
                        "the stated size recorded in non-decreasing order, all call sequences of length 2 over every call kind, random walks; "
                        "each is replayed on a real Histogram/WindowedHistogram and after every call TotalCount, ValueAtQuantile(100r/total) "
                        "for every rank r (exact <= Q, Q-exact < bucket width, Q-exact <= max(2^floor(log2 min), exact/10^sf)), Min, Max, "
                        "Distribution/CumulativeDistribution totals, Equals after Export/Import and Merge-into-empty are compared with the "
                        "spec's order statistics; any recovered panic is a violation; non-trivial = occurrences in at least two buckets or a "
-                       "call other than Record")
+                       "call other than Record; every behaviour is executed again at a large magnitude (lift k, scale c with "
+                       "max*2^(k+c) just past 2^31 / 2^32, min past 2^31, max in [2^61,2^62) or random; one variant per behaviour in the "
+                       "quick tier, every kind in the thorough tier) and judged with TransExpect (Hdr.tla) of the printed expectations")
